@@ -87,7 +87,10 @@ fn select_max_index<T, Cmp: Fn(&T, &T) -> std::cmp::Ordering>(
         iter: impl Iterator<Item = &'a T>,
         compare: impl Fn(&'a T, &'a T) -> std::cmp::Ordering,
     ) -> usize {
-        let (index, _) = iter.enumerate().max_by(|a, b| compare(a.1, b.1)).unwrap(); // Ok because we checked tensor is not empty.
+        // nb. `Iterator::max_by` returns the last of several equal maxima, but
+        // ONNX requires the first occurrence (`select_last_index=0`).
+        // `Iterator::min_by` with the comparison reversed returns the first.
+        let (index, _) = iter.enumerate().min_by(|a, b| compare(b.1, a.1)).unwrap(); // Ok because we checked tensor is not empty.
         index
     }
 
